@@ -115,6 +115,72 @@ func extractC13(c *Ctx) {
 		"NewWebBridge: (webbridge constructor, Opts type, fields declared by the Opts type, fields set by the Opts value with the expression, local aliases resolved)")
 	c.Add("webBridgeTranscoderInit", "String", LeanStr(trInit), src, "initialiser of the local `transcoder` in NewWebBridge")
 	extractC13Flush(c)
+	extractC13Handoff(c)
+}
+
+// extractC13Handoff reads the synchronisation skeleton the gwsStream LTS is built on (webbridge/websocket.go):
+//
+//	gwsSelectShape : List (String × List String)  -- per function: the comm clauses of its select statements, in source order
+//	gwsReaderDefers : List String                  -- the deferred calls of the goroutine that runs socket.ReadLoop(), in source order
+//	gwsEventsCloseGuard : List String              -- the condition of every `if` that directly contains `close(stream.events)`
+func extractC13Handoff(c *Ctx) {
+	sq := func(n ast.Node) string { return strings.Join(strings.Fields(c.Src(n)), "") }
+	const file = "webbridge/websocket.go"
+	rows := []string{}
+	for _, m := range [][2]string{{"gwsHandler", "OnMessage"}, {"gwsStream", "Recv"}} {
+		comms := []string{}
+		if fd := c.FuncDecl(file, m[0], m[1]); fd != nil && fd.Body != nil {
+			ast.Inspect(fd.Body, func(n ast.Node) bool {
+				if cc, ok := n.(*ast.CommClause); ok {
+					if cc.Comm == nil {
+						comms = append(comms, "default")
+					} else {
+						comms = append(comms, sq(cc.Comm))
+					}
+				}
+				return true
+			})
+		}
+		rows = append(rows, fmt.Sprintf("(%s, %s)", LeanStr(m[0]+"."+m[1]), LeanStrList(comms)))
+	}
+	c.Add("gwsSelectShape", "List (String × List String)", "["+strings.Join(rows, ", ")+"]", file,
+		"comm clauses of the select statements in gwsHandler.OnMessage and gwsStream.Recv")
+
+	defers, guards := []string{}, []string{}
+	if fd := c.FuncDecl(file, "TranscodedWebSocketBridge", "ServeHTTP"); fd != nil && fd.Body != nil {
+		ast.Inspect(fd.Body, func(n ast.Node) bool {
+			gs, ok := n.(*ast.GoStmt)
+			if !ok {
+				return true
+			}
+			fl, ok := gs.Call.Fun.(*ast.FuncLit)
+			if !ok || !strings.Contains(c.Src(fl), "ReadLoop") {
+				return true
+			}
+			for _, st := range fl.Body.List {
+				if d, ok := st.(*ast.DeferStmt); ok {
+					defers = append(defers, sq(d.Call))
+				}
+			}
+			return true
+		})
+	}
+	if fd := c.FuncDecl(file, "gwsHandler", "OnMessage"); fd != nil && fd.Body != nil {
+		ast.Inspect(fd.Body, func(n ast.Node) bool {
+			ifs, ok := n.(*ast.IfStmt)
+			if !ok {
+				return true
+			}
+			for _, st := range ifs.Body.List {
+				if sq(st) == "close(stream.events)" {
+					guards = append(guards, sq(ifs.Cond))
+				}
+			}
+			return true
+		})
+	}
+	c.Add("gwsReaderDefers", "List String", LeanStrList(defers), file, "deferred calls of the goroutine running socket.ReadLoop() in TranscodedWebSocketBridge.ServeHTTP")
+	c.Add("gwsEventsCloseGuard", "List String", LeanStrList(guards), file, "conditions guarding close(stream.events) in gwsHandler.OnMessage")
 }
 
 // extractC13Flush reads the write/flush shape of the streamed HTTP response path:
